@@ -85,6 +85,7 @@ type Exec struct {
 	bypass            map[*ssa.Function]bool
 	onceDone          map[Node]bool
 	syncMaps          map[Node]*MapObj
+	uniques           []uniqueEntry
 	goQueue           []func() // goroutines started and not yet run (sched.go)
 	inGoroutine       int
 	allowGo           bool
